@@ -326,6 +326,10 @@ struct StepObs {
     current: Option<DD>,
     max: Option<DD>,
     mean: Option<Mean>,
+    /// the tear sheet generated right after this point on the interim-report paths (the generator carries on)
+    report: Option<FinalObs>,
+    /// this point was handed over by `reset` (a new session starting at it) instead of an update
+    reset: bool,
 }
 
 struct FinalObs {
@@ -358,6 +362,11 @@ fn restored<T: serde::Serialize + serde::de::DeserializeOwned + PartialEq + std:
 
 fn restore_now(p: &Point) -> bool {
     p.t.rem_euclid(7) == 3
+}
+
+/// Interim-report asset path: a point with a positive value and such a time stamp starts a new session (`reset`).
+fn reset_now(p: &Point) -> bool {
+    p.t.rem_euclid(13) == 6 && p.v > Decimal::ZERO
 }
 
 impl Sut {
@@ -413,9 +422,12 @@ impl Sut {
                     current: g.as_mut().unwrap().generate().as_ref().map(DD::of),
                     max: maxg.as_ref().and_then(|m| m.generate()).map(|m| DD::of(&m.0)),
                     mean: meang.as_ref().and_then(|m| m.generate()).map(|m| (m.mean_drawdown, m.mean_drawdown_ms)),
+                    report: None,
+                    reset: false,
                 }
             }
             Sut::Asset { g, init, interim } => {
+                let mut reset = false;
                 match g {
                     None if *init => *g = Some(TearSheetAssetGenerator::init(&Timed::new(Balance::new(p.v, p.v - locked(p)), t(p.t)))),
                     None => {
@@ -423,20 +435,33 @@ impl Sut {
                         fresh.update_from_balance(Snapshot(&asset_balance(p)));
                         *g = Some(fresh);
                     }
+                    // a new session: the generator is reset with this point as its starting balance and carries on
+                    Some(tsg) if *interim && reset_now(p) => {
+                        tsg.reset(&Timed::new(Balance::new(p.v, p.v - locked(p)), t(p.t)));
+                        reset = true;
+                    }
                     Some(tsg) => tsg.update_from_balance(Snapshot(&asset_balance(p))),
                 }
                 if restore_now(p) {
                     *g = g.as_ref().map(restored);
                 }
                 let tsg = g.as_mut().unwrap();
-                if *interim && p.t.rem_euclid(3) == 1 {
-                    let _report = tsg.generate();
-                }
+                let report = (*interim && p.t.rem_euclid(3) == 1).then(|| {
+                    let sheet = tsg.generate();
+                    FinalObs {
+                        current: sheet.drawdown.as_ref().map(DD::of),
+                        max: sheet.drawdown_max.map(|m| DD::of(&m.0)),
+                        mean: sheet.drawdown_mean.map(|m| (m.mean_drawdown, m.mean_drawdown_ms)),
+                        last_value: sheet.balance_end.map(|b| b.total),
+                    }
+                });
                 StepObs {
                     emitted: None,
                     current: tsg.drawdown.generate().as_ref().map(DD::of),
                     max: tsg.drawdown_max.generate().map(|m| DD::of(&m.0)),
                     mean: tsg.drawdown_mean.generate().map(|m| (m.mean_drawdown, m.mean_drawdown_ms)),
+                    report,
+                    reset,
                 }
             }
             Sut::Summary { g, other, k } => {
@@ -451,6 +476,8 @@ impl Sut {
                     current: tsg.drawdown.generate().as_ref().map(DD::of),
                     max: tsg.drawdown_max.generate().map(|m| DD::of(&m.0)),
                     mean: tsg.drawdown_mean.generate().map(|m| (m.mean_drawdown, m.mean_drawdown_ms)),
+                    report: None,
+                    reset: false,
                 }
             }
             Sut::Position { g, prev, interim } => {
@@ -473,14 +500,22 @@ impl Sut {
                 if restore_now(p) {
                     *tsg = restored(tsg);
                 }
-                if *interim && p.t.rem_euclid(3) == 1 {
-                    let _report = tsg.generate(Decimal::ZERO, Daily);
-                }
+                let report = (*interim && p.t.rem_euclid(3) == 1).then(|| {
+                    let sheet = tsg.generate(Decimal::ZERO, Daily);
+                    FinalObs {
+                        current: sheet.pnl_drawdown.as_ref().map(DD::of),
+                        max: sheet.pnl_drawdown_max.map(|m| DD::of(&m.0)),
+                        mean: sheet.pnl_drawdown_mean.map(|m| (m.mean_drawdown, m.mean_drawdown_ms)),
+                        last_value: Some(sheet.pnl),
+                    }
+                });
                 StepObs {
                     emitted: None,
                     current: tsg.pnl_drawdown.generate().as_ref().map(DD::of),
                     max: tsg.pnl_drawdown_max.generate().map(|m| DD::of(&m.0)),
                     mean: tsg.pnl_drawdown_mean.generate().map(|m| (m.mean_drawdown, m.mean_drawdown_ms)),
+                    report,
+                    reset: false,
                 }
             }
         }
@@ -615,6 +650,12 @@ fn judge(points: &[Point], seen: &Observed, stats: &mut RunStats) -> Result<(), 
         let pre_max_depth = model.max_depth;
         let pre_len = model.set.len();
         stats.steps += 1;
+        if obs.reset {
+            // a new session starts at this point: nothing of the earlier curve may be reported any more
+            model = Model::default();
+            stats.cells.push("lifecycle:reset_starts_a_new_session");
+        }
+        let (pre_peak, pre_trough, pre_max_depth, pre_len) = if obs.reset { (None, None, model.max_depth, 0) } else { (pre_peak, pre_trough, pre_max_depth, pre_len) };
         let exp = model.step(p);
 
         // WHY cells
@@ -673,6 +714,21 @@ fn judge(points: &[Point], seen: &Observed, stats: &mut RunStats) -> Result<(), 
         if model.set.len() >= 2 {
             stats.cells.push("agg:mean_of_two_or_more");
         }
+        // a tear sheet generated here (the generator carries on): the report of the curve so far
+        if let Some(rep) = &obs.report {
+            let cur = model.current();
+            stats.checks += 2;
+            judge_dd("current", &cur, &rep.current).map_err(|(s, m)| (s, format!("in the report generated after point #{i} {p:?}: {m}")))?;
+            judge_aggregates(&model.set, cur.as_ref(), model.sum_depth, model.sum_dur, model.max_depth, &rep.max, &rep.mean)
+                .map_err(|(s, m)| (s, format!("in the report generated after point #{i} {p:?}: {m}")))?;
+            if let Some(last) = rep.last_value {
+                stats.checks += 1;
+                if last != p.v {
+                    return Err(("tear_sheet_last_value_mismatch", format!("the report generated after point #{i} {p:?} gives last value {last}")));
+                }
+            }
+            stats.cells.push(if cur.is_some() { "interim_report:decline_in_progress" } else { "interim_report:no_decline_in_progress" });
+        }
     }
 
     // the single end-of-curve generate
@@ -728,6 +784,7 @@ fn log_record(path: Path, points: &[Point], seen: &Observed) -> Value {
         "emitted": if matches!(path, Path::Direct | Path::DirectInit) { Value::Array(emitted) } else { Value::Null },
         "changes": changes,
         "observed_steps": seen.steps.len(),
+        "resets": seen.steps.iter().enumerate().filter(|(_, o)| o.reset).map(|(i, _)| i).collect::<Vec<_>>(),
         "final": seen.fin.as_ref().map(|f| json!({"current": DD::json(&f.current), "max": DD::json(&f.max), "mean": mean_json(&f.mean)})),
         "panic": seen.panic.as_ref().map(|(s, m)| json!([s, m])),
     })
@@ -1013,6 +1070,9 @@ fn main() {
         report.require("path:summary_with_a_second_asset_running_ahead");
         report.require("path:asset_with_interim_reports");
         report.require("path:position_with_interim_reports");
+        report.require("interim_report:decline_in_progress");
+        report.require("interim_report:no_decline_in_progress");
+        report.require("lifecycle:reset_starts_a_new_session");
     }
     for c in CLASSES {
         report.require(&format!("class:{c}"));
